@@ -13,6 +13,9 @@ from mc.lib.classify_spaces import exc_site
 
 ID = 'C12'
 LEVEL = 'model_checking'
+# fewer non-trivial cases than this share of all cases means that the
+# exploration has become vacuous (reported as INTERNAL-ERROR, never as a pass)
+MIN_NONTRIVIAL_FRACTION = 0.3
 RULE = (
     'Every word of the stated lengths over a per-step sample alphabet (grid '
     'levels k*step spelled as float product and as decimal literal, one ulp '
